@@ -12,6 +12,15 @@
 //     with a verified client certificate shows that the route exists with that method (status other than 404/405);
 //     404/405 are only accepted when the reference request says 404/405 as well;
 //   * under TLS the identity header never changes the outcome; with TLS off it is honoured.
+// Two further monitors use hyper's connection-level client over sockets they open themselves (the project's client always
+// speaks HTTP/2 with an absolute https:// or http:// URI):
+//   (c) `verif_c20_http_versions`: HTTP/1.1 {origin-form, absolute-form http / https} and HTTP/2 {:scheme https / http} on TLS
+//       and plain listeners x {no certificate, known certificate, unknown certificate} x identity headers: under TLS a header
+//       never authenticates nor changes the outcome whatever the HTTP version / request-URI scheme; with TLS off it is honoured;
+//   (d) `verif_c20_unpinned_peers`: TLS servers whose network configuration leaves some peers without a pinned certificate
+//       (every subset): only callers whose certificate is pinned in that configuration are served, under their own identity;
+//       callers without certificate or with any other certificate are refused (401 or TLS handshake), the request handler is
+//       not invoked and no record stream is created.
 // A request handler installed in the servers records every request that gets past the HTTP layer: a protected route
 // whose handler is reached without a verified identity is a violation whatever the status code.
 // IO errors / timeouts are inconclusive, never violations.
@@ -1271,6 +1280,881 @@ mod live {
                 }
             }
         }); }
+        rec.finish();
+    }
+
+    // =========================================================================================
+    // Raw client: own TCP / TLS connection, explicit HTTP version and request-target form.
+    //
+    // `IpaHttpClient` always speaks HTTP/2 with an absolute `https://` (TLS) or `http://` (plain) URI. What a server sees
+    // as "the request URI" is caller-controlled data: HTTP/1.1 origin-form targets carry no scheme at all, HTTP/1.1
+    // absolute-form targets and the HTTP/2 `:scheme` pseudo header carry whatever the caller writes. The two monitors
+    // below therefore drive hyper's connection-level client over a socket they opened themselves.
+    // =========================================================================================
+
+    use http_body_util::BodyExt;
+    use hyper_util::rt::{TokioExecutor, TokioIo};
+
+    #[derive(Clone, Copy, PartialEq, Eq, Hash, Debug, PartialOrd, Ord)]
+    enum Wire {
+        /// HTTP/1.1, origin-form request target (`POST /query/.. HTTP/1.1`): the server-side URI has no scheme
+        H1Origin,
+        /// HTTP/1.1, absolute-form request target with scheme `http`
+        H1AbsHttp,
+        /// HTTP/1.1, absolute-form request target with scheme `https`
+        H1AbsHttps,
+        /// HTTP/2, `:scheme: https`
+        H2Https,
+        /// HTTP/2, `:scheme: http`
+        H2Http,
+    }
+
+    impl Wire {
+        const ALL: [Wire; 5] = [Wire::H1Origin, Wire::H1AbsHttp, Wire::H1AbsHttps, Wire::H2Https, Wire::H2Http];
+        fn h2(self) -> bool {
+            matches!(self, Wire::H2Https | Wire::H2Http)
+        }
+        fn http(self) -> &'static str {
+            if self.h2() { "2" } else { "1.1" }
+        }
+        fn scheme(self) -> &'static str {
+            match self {
+                Wire::H1Origin => "none",
+                Wire::H1AbsHttp | Wire::H2Http => "http",
+                Wire::H1AbsHttps | Wire::H2Https => "https",
+            }
+        }
+        fn name(self) -> &'static str {
+            match self {
+                Wire::H1Origin => "1.1/origin-form",
+                Wire::H1AbsHttp => "1.1/absolute-form-http",
+                Wire::H1AbsHttps => "1.1/absolute-form-https",
+                Wire::H2Https => "2/scheme-https",
+                Wire::H2Http => "2/scheme-http",
+            }
+        }
+        fn target(self, port: u16, pq: &str) -> String {
+            match self.scheme() {
+                "none" => pq.to_string(),
+                sch => format!("{sch}://localhost:{port}{pq}"),
+            }
+        }
+    }
+
+    /// what the caller presents on the TLS connection (ignored on plain connections)
+    #[derive(Clone, Copy, PartialEq, Eq, Hash, Debug, PartialOrd, Ord)]
+    enum Who {
+        Anonymous,
+        /// index into the repository's test certificates
+        Cert(usize),
+    }
+
+    enum Sender {
+        H1(hyper::client::conn::http1::SendRequest<Body>),
+        H2(hyper::client::conn::http2::SendRequest<Body>),
+    }
+
+    impl Sender {
+        fn is_closed(&self) -> bool {
+            match self {
+                Sender::H1(s) => s.is_closed(),
+                Sender::H2(s) => s.is_closed(),
+            }
+        }
+        async fn send(&mut self, req: Request<Body>) -> Result<hyper::Response<hyper::body::Incoming>, hyper::Error> {
+            match self {
+                Sender::H1(s) => {
+                    s.ready().await?;
+                    s.send_request(req).await
+                }
+                Sender::H2(s) => {
+                    s.ready().await?;
+                    s.send_request(req).await
+                }
+            }
+        }
+    }
+
+    fn tls_client_config(who: Who, h2: bool) -> Arc<rustls::ClientConfig> {
+        let provider = Arc::new(rustls::crypto::aws_lc_rs::default_provider());
+        // every server under test presents the certificate of (helper 1, shard 0)
+        let mut roots = rustls::RootCertStore::empty();
+        roots.add(cert_der(0)).unwrap();
+        let b = rustls::ClientConfig::builder_with_provider(provider)
+            .with_safe_default_protocol_versions()
+            .unwrap()
+            .with_root_certificates(roots);
+        let mut cfg = match who {
+            Who::Anonymous => b.with_no_client_auth(),
+            Who::Cert(k) => match cert_identity(k) {
+                ClientIdentity::Certificate((chain, key)) => b.with_client_auth_cert(chain, key).unwrap(),
+                _ => unreachable!(),
+            },
+        };
+        cfg.alpn_protocols = vec![if h2 { b"h2".to_vec() } else { b"http/1.1".to_vec() }];
+        Arc::new(cfg)
+    }
+
+    async fn raw_handshake<T>(io: T, h2: bool) -> Result<Sender, String>
+    where
+        T: tokio::io::AsyncRead + tokio::io::AsyncWrite + Unpin + Send + 'static,
+    {
+        let io = TokioIo::new(io);
+        if h2 {
+            let (s, conn) = hyper::client::conn::http2::handshake::<_, _, Body>(TokioExecutor::new(), io).await.map_err(|e| format!("h2 handshake: {e}"))?;
+            tokio::spawn(async move {
+                let _ = conn.await;
+            });
+            Ok(Sender::H2(s))
+        } else {
+            let (s, conn) = hyper::client::conn::http1::handshake::<_, Body>(io).await.map_err(|e| format!("h1 handshake: {e}"))?;
+            tokio::spawn(async move {
+                let _ = conn.await;
+            });
+            Ok(Sender::H1(s))
+        }
+    }
+
+    async fn raw_connect(port: u16, tls: bool, who: Who, h2: bool) -> Result<Sender, String> {
+        let tcp = tokio::net::TcpStream::connect(("localhost", port)).await.map_err(|e| format!("connect: {e}"))?;
+        let _ = tcp.set_nodelay(true);
+        if tls {
+            let c = tokio_rustls::TlsConnector::from(tls_client_config(who, h2));
+            let name = rustls::pki_types::ServerName::try_from("localhost").unwrap();
+            let s = c.connect(name, tcp).await.map_err(|e| format!("tls handshake: {e}"))?;
+            let alpn = s.get_ref().1.alpn_protocol().map(<[u8]>::to_vec);
+            if alpn.as_deref() != Some(if h2 { b"h2".as_slice() } else { b"http/1.1".as_slice() }) {
+                return Err(format!("request: server did not negotiate the offered ALPN protocol ({alpn:?})"));
+            }
+            raw_handshake(s, h2).await
+        } else {
+            raw_handshake(tcp, h2).await
+        }
+    }
+
+    struct RawOut {
+        status: Option<u16>,
+        err: Option<String>,
+        version: Option<String>,
+    }
+
+    impl RawOut {
+        fn err(e: impl Into<String>) -> Self {
+            RawOut { status: None, err: Some(e.into().chars().take(200).collect()), version: None }
+        }
+    }
+
+    /// connections are kept per (port, tls, caller, HTTP version); one request at a time
+    #[derive(Default)]
+    struct RawPool {
+        conns: BTreeMap<(u16, bool, Who, bool), Sender>,
+        connects: u64,
+        reconnects: u64,
+    }
+
+    fn body_bytes(kind: u8, method: &str) -> (Vec<u8>, Option<&'static str>) {
+        if method == "GET" || method == "DELETE" {
+            return (Vec::new(), None);
+        }
+        match kind {
+            0 => (Vec::new(), None),
+            1 => (
+                serde_json::to_vec(&json!({"roles": RoleAssignment::new(HelperIdentity::make_three())})).unwrap(),
+                Some("application/json"),
+            ),
+            _ => (vec![0xA5u8; 64], Some("application/octet-stream")),
+        }
+    }
+
+    impl RawPool {
+        #[allow(clippy::too_many_arguments)]
+        async fn send(&mut self, port: u16, tls: bool, who: Who, wire: Wire, method: &str, pq: &str, body: &(Vec<u8>, Option<&'static str>), headers: &[(&str, &str)]) -> RawOut {
+            let key = (port, tls, if tls { who } else { Who::Anonymous }, wire.h2());
+            match tokio::time::timeout(IO_TIMEOUT, self.send_inner(key, wire, method, pq, body, headers)).await {
+                Ok(o) => o,
+                Err(_) => {
+                    self.conns.remove(&key);
+                    RawOut::err("timeout")
+                }
+            }
+        }
+
+        async fn send_inner(&mut self, key: (u16, bool, Who, bool), wire: Wire, method: &str, pq: &str, body: &(Vec<u8>, Option<&'static str>), headers: &[(&str, &str)]) -> RawOut {
+            let (port, tls, who, h2) = key;
+            for attempt in 0..2 {
+                let mut fresh = false;
+                if self.conns.get(&key).is_none_or(Sender::is_closed) {
+                    self.conns.remove(&key);
+                    match raw_connect(port, tls, who, h2).await {
+                        Ok(s) => {
+                            self.conns.insert(key, s);
+                            self.connects += 1;
+                            fresh = true;
+                        }
+                        Err(e) => return RawOut::err(e),
+                    }
+                }
+                let mut b = Request::builder().method(method).uri(wire.target(port, pq));
+                if !h2 {
+                    b = b.header("host", format!("localhost:{port}"));
+                }
+                if let Some(c) = body.1 {
+                    b = b.header("content-type", c);
+                }
+                for (k, v) in headers {
+                    b = b.header(*k, *v);
+                }
+                let payload = if body.0.is_empty() { Body::empty() } else { Body::from(body.0.clone()) };
+                let req = match b.body(payload) {
+                    Ok(r) => r,
+                    Err(e) => return RawOut::err(format!("request: {e}")),
+                };
+                let sender = self.conns.get_mut(&key).unwrap();
+                match sender.send(req).await {
+                    Ok(resp) => {
+                        let status = resp.status().as_u16();
+                        let version = format!("{:?}", resp.version());
+                        // drain the body so that an HTTP/1.1 connection can be used again
+                        if !matches!(tokio::time::timeout(Duration::from_secs(10), resp.into_body().collect()).await, Ok(Ok(_))) {
+                            self.conns.remove(&key);
+                        }
+                        return RawOut { status: Some(status), err: None, version: Some(version) };
+                    }
+                    Err(e) => {
+                        self.conns.remove(&key);
+                        if fresh || attempt == 1 {
+                            let mut msg = format!("{e}");
+                            let mut src = std::error::Error::source(&e);
+                            while let Some(s) = src {
+                                msg.push_str(&format!(": {s}"));
+                                src = s.source();
+                            }
+                            return RawOut::err(msg);
+                        }
+                        // a connection that the server closed after the previous response: open a new one
+                        self.reconnects += 1;
+                    }
+                }
+            }
+            unreachable!()
+        }
+    }
+
+    // -----------------------------------------------------------------------------------------
+    // probes judged by the two monitors below
+    // -----------------------------------------------------------------------------------------
+
+    /// query string that the `prepare` / `create` / `status-match` extractors accept (`FieldType` is spelled `Fp31`), so that an
+    /// authenticated request gets through to the request handler
+    const QUERY_WELL_FORMED: &str = "?query_type=test-multiply&field_type=Fp31&size=1&status=Running";
+
+    #[derive(Clone, Copy, PartialEq, Eq, Hash, Debug, PartialOrd, Ord)]
+    enum Hdr {
+        /// the server's own identity header naming a configured peer
+        Peer,
+        /// the server's own identity header with a value that is not an identity
+        Malformed,
+        /// the identity header of the other flavour
+        OtherFlavour,
+    }
+
+    impl Hdr {
+        fn name(self) -> &'static str {
+            match self {
+                Hdr::Peer => "peer",
+                Hdr::Malformed => "malformed",
+                Hdr::OtherFlavour => "other-flavour",
+            }
+        }
+    }
+
+    /// What the property says about the caller (independent of the code under test: derived from what the caller
+    /// presented and from the configuration the server was given).
+    #[derive(Clone, Debug, PartialEq, Eq)]
+    enum Expect {
+        /// not authenticated as a configured peer: protected routes answer 401, the request handler is not invoked and no
+        /// record stream is created. `tls_failure_ok`: the caller presented a certificate that the server has no reason
+        /// to trust, so a failed TLS handshake is a refusal as well.
+        Refuse { tls_failure_ok: bool },
+        /// authenticated as the configured peer `id`
+        Accept { id: String },
+        /// TLS off and a malformed identity header
+        Malformed,
+    }
+
+    #[derive(Clone)]
+    struct RouteCase {
+        tmpl: Tmpl,
+        method: &'static str,
+        /// record-stream route (wildcard tail, POST)
+        stream: bool,
+        allow: bool,
+    }
+
+    /// every (server, template, registered method) of the inventory, in scanner order
+    fn route_cases(inv: &Inventory) -> Vec<RouteCase> {
+        let mut out = Vec::new();
+        for t in templates(inv) {
+            for m in METHODS {
+                if t.registered.contains(*m) {
+                    out.push(RouteCase { stream: t.full.contains("/*") && *m == "POST", allow: allowed(t.srv, m, &t.full), tmpl: t.clone(), method: m });
+                }
+            }
+        }
+        out
+    }
+
+    /// Existence reference for a route (same request through `IpaHttpClient` with a certificate that the fully pinned
+    /// `TestServer` knows), cached per route index. `None`: no reference / the route does not exist with that method.
+    async fn route_reference(w: &World, rec: &mut Recorder, cache: &mut BTreeMap<usize, Option<Outcome>>, ri: usize, rc: &RouteCase) -> Option<Outcome> {
+        if let Some(r) = cache.get(&ri) {
+            return r.clone();
+        }
+        let case = Case {
+            idx: 0,
+            tmpl: rc.tmpl.clone(),
+            method: rc.method,
+            variant: Variant { label: "canonical".into(), path: instantiate(&rc.tmpl.full, "0", "0", GATES[0]), query: QUERY_OK.into(), body: 1 },
+        };
+        let r = match reference(w, rec, &case).await {
+            Some(r) if r.status.is_some_and(|s| s != 404 && s != 405) => Some(r),
+            Some(r) => {
+                rec.inconclusive(format!("scanner attributes {} {} to the {} server but a verified caller gets {}", rc.method, rc.tmpl.full, rc.tmpl.srv.name(), r.class()));
+                None
+            }
+            None => None,
+        };
+        cache.insert(ri, r.clone());
+        r
+    }
+
+    struct P<'a> {
+        test: &'static str,
+        case: usize,
+        srv: Srv,
+        tls: bool,
+        port: u16,
+        start: Start,
+        /// "pinned" or "unpinned:<peers without a certificate>"
+        config: &'a str,
+        rc: &'a RouteCase,
+        reference: &'a Outcome,
+        who: Who,
+        /// exact label ("anonymous", "cert:H3", "cert:foreign")
+        client: &'a str,
+        /// anonymous | cert:pinned-peer | cert:unpinned-peer | cert:foreign
+        client_kind: &'static str,
+        wire: Wire,
+        hdr: Option<(Hdr, &'static str, &'a str)>,
+        expect: Expect,
+    }
+
+    /// Under which identities does the transport hold a record stream for `gate`? All candidate identities are polled
+    /// concurrently; `wait` bounds the time until the first one delivers, the others get a short grace period after that.
+    async fn filed_under(w: &World, srv: Srv, tls: bool, gate: &str, payload: &[u8], wait: Duration) -> Vec<String> {
+        let ids = all_ids(srv);
+        let mut pending: futures::stream::FuturesUnordered<_> = ids
+            .iter()
+            .map(|id| async move { (id.clone(), held_by(w, srv, tls, id, gate, payload.len(), Duration::from_secs(20)).await) })
+            .collect();
+        let mut filed = Vec::new();
+        let mut deadline = tokio::time::Instant::now() + wait;
+        while let Ok(Some((id, got))) = tokio::time::timeout_at(deadline, pending.next()).await {
+            if let Some(bytes) = got {
+                filed.push(if bytes == payload { id } else { format!("{id}?") });
+                deadline = deadline.min(tokio::time::Instant::now() + Duration::from_millis(120));
+            }
+        }
+        filed.sort();
+        filed
+    }
+
+    /// Sends one probe through the raw client and judges it. Returns the outcome (baseline for the header variants).
+    async fn probe(w: &World, pool: &mut RawPool, rec: &mut Recorder, env: &Env, io_errors: &mut u64, p: &P<'_>, baseline: Option<&Outcome>) -> Outcome {
+        let u = w.next_uniq();
+        let tp = p.rc.tmpl.full.as_str();
+        let (pq, body, gate) = if p.rc.stream {
+            let mut r = VRng::new(env.seed ^ 0xC20_57E, p.case as u64);
+            let plen = r.range(1, 48) as usize;
+            let gate = format!("verif/{}/{}/u{u}", p.test, p.case);
+            (instantiate(tp, "0", "0", &gate).replace("{U}", ""), (r.bytes(plen), Some("application/octet-stream")), Some(gate))
+        } else {
+            (format!("{}{QUERY_WELL_FORMED}", instantiate(tp, "0", "0", GATES[0]).replace("{U}", &format!("-u{u}"))), body_bytes(1, p.rc.method), None)
+        };
+        let headers: Vec<(&str, &str)> = p.hdr.iter().map(|(_, n, v)| (*n, *v)).collect();
+        let log = &w.logs[&(p.srv, p.tls)];
+        let before = log.lock().unwrap().len();
+        let out = pool.send(p.port, p.tls, p.who, p.wire, p.rc.method, &pq, &body, &headers).await;
+        let reached = log.lock().unwrap()[before..].to_vec();
+        let o = Outcome { status: out.status, err: out.err, reached, path: pq.chars().take(160).collect() };
+
+        rec.eval();
+        let route = format!("{} {}", p.rc.method, tp);
+        let proto = if p.tls { "https" } else { "http" };
+        let hdr_class = p.hdr.map(|h| h.0.name());
+        let kind = if p.rc.allow { "allowed" } else { "protected" };
+        rec.seen("status_classes", format!("{}/raw-{proto}-{}-{}{}/{kind}/{}", p.srv.name(), p.wire.http(), p.client_kind, if p.hdr.is_some() { "+header" } else { "" }, o.class()));
+
+        // the client stack must have done what was asked, otherwise nothing is learnt about that variant
+        if let Some(v) = &out.version {
+            if (v == "HTTP/2.0") != p.wire.h2() {
+                rec.inconclusive(format!("asked for HTTP/{} but the response came over {v}", p.wire.http()));
+                return o;
+            }
+            rec.seen("http_variants", format!("{}/{proto}/{}", p.srv.name(), p.wire.name()));
+            rec.seen("http_versions_answered", format!("{proto} {v}"));
+            rec.seen("start_modes", format!("{}/{proto}/{}", p.srv.name(), p.start.name()));
+        }
+
+        // where did the record stream go (record-stream routes only)? Always looked at when the request was not
+        // answered 401; a sample of the refused ones is looked at as well.
+        let mut filed: Option<Vec<String>> = None;
+        if let (Some(gate), Some(st)) = (&gate, o.status) {
+            let accepted_2xx = matches!(p.expect, Expect::Accept { .. }) && (200..300).contains(&st);
+            let sampled = env.thorough || vlib::fxhash(&(p.case, hdr_class, p.hdr.map(|h| h.2))) % 4 == 0;
+            if st != 401 || sampled {
+                let wait = if accepted_2xx { Duration::from_secs(15) } else { Duration::from_millis(150) };
+                filed = Some(filed_under(w, p.srv, p.tls, gate, &body.0, wait).await);
+            }
+        }
+
+        let sig = |kind: &str| {
+            json!({"kind": kind, "server": p.srv.name(), "route": route, "client": p.client_kind, "config": p.config, "tls": p.tls, "http": p.wire.http(),
+                "scheme": p.wire.scheme(), "header": hdr_class, "start": p.start.name(), "status": o.status})
+        };
+        let witness = json!({"case": p.case, "start": p.start.name(), "server": p.srv.name(), "tls": p.tls, "config": p.config, "route": route, "request_target": p.wire.target(p.port, &o.path),
+            "client": p.client, "client_kind": p.client_kind, "http": p.wire.name(), "header": p.hdr.map(|(_, n, v)| format!("{n}: {v}")), "expected": format!("{:?}", p.expect),
+            "outcome": o.json(), "response_version": out.version, "stream_filed_under": filed, "same_request_without_header": baseline.map(Outcome::json),
+            "reference_with_verified_cert": p.reference.json(),
+            "scanner": {"handler_modules": p.rc.tmpl.names, "mounted_by": p.rc.tmpl.routers, "registered_methods": p.rc.tmpl.registered}});
+
+        let Some(st) = o.status else {
+            if p.expect == (Expect::Refuse { tls_failure_ok: true }) {
+                rec.count("raw_refused_at_tls");
+                rec.count(&format!("{}_refused_at_tls", p.test));
+                rec.seen("raw_tls_refusal_errors", o.err.clone().unwrap_or_default().chars().filter(|c| !c.is_ascii_digit()).take(110).collect::<String>());
+                rec.seen("refusals", format!("{}/{}/tls-handshake", p.srv.name(), p.client_kind));
+                rec.seen("client_kinds", p.client_kind);
+                rec.distinct(&(p.test, p.srv, p.config, p.start, &route, p.client, p.wire, p.hdr));
+            } else if o.err.as_deref().is_some_and(|e| e.starts_with("request:")) {
+                rec.count("variant_rejected_by_http_client");
+            } else {
+                *io_errors += 1;
+                rec.count("io_errors");
+                rec.inconclusive(format!("io error on {} {route} [{proto} {} {} {}]: {:?}", p.srv.name(), p.wire.name(), p.client, p.config, o.err));
+            }
+            return o;
+        };
+
+        let mut ok = true;
+        if p.rc.allow {
+            // report-collector routes stay reachable for everybody who gets a response at all
+            if st == 401 {
+                ok = false;
+                rec.violation("report-collector route answered 401", sig("allowlisted_401"), witness.clone());
+            }
+        } else {
+            match &p.expect {
+                Expect::Refuse { .. } => {
+                    if st != 401 {
+                        ok = false;
+                        rec.violation("h2h / s2s route served a caller that is not authenticated as a configured peer", sig("unauthenticated_accepted"), witness.clone());
+                    }
+                    if !o.reached.is_empty() {
+                        ok = false;
+                        rec.violation("request handler of a protected route invoked for a caller that is not authenticated as a configured peer", sig("handler_reached_unauthenticated"), witness.clone());
+                    }
+                    if filed.as_ref().is_some_and(|f| !f.is_empty()) {
+                        ok = false;
+                        rec.violation("record stream created for a caller that is not authenticated as a configured peer", sig("stream_filed_unauthenticated"), witness.clone());
+                    }
+                }
+                Expect::Accept { id } => {
+                    if st == 401 {
+                        ok = false;
+                        if p.tls {
+                            rec.inconclusive(format!("certificate of a pinned peer refused (401) on {} {route} [{} {}]", p.srv.name(), p.config, p.wire.name()));
+                        } else {
+                            rec.violation("TLS disabled: identity header not honoured (401 although the route exists)", sig("header_not_honoured"), witness.clone());
+                        }
+                    } else if let Some(f) = &filed {
+                        if f.len() == 1 && f[0] == *id {
+                            rec.count(&format!("{}_stream_under_own_identity", p.test));
+                        } else if f.iter().any(|x| x != id) {
+                            ok = false;
+                            let mut s = sig("stream_misfiled");
+                            s["filed_under_header_value"] = json!(p.hdr.is_some_and(|h| f.iter().any(|x| x == h.2)));
+                            rec.violation("record stream filed under an identity other than the authenticated one", s, witness.clone());
+                        } else if (200..300).contains(&st) {
+                            ok = false;
+                            rec.inconclusive(format!("record-stream route answered {st} but no stream was found ({} {} {})", p.srv.name(), p.config, p.wire.name()));
+                        }
+                    }
+                }
+                Expect::Malformed => {
+                    if !o.reached.is_empty() || (200..300).contains(&st) || filed.as_ref().is_some_and(|f| !f.is_empty()) {
+                        ok = false;
+                        rec.violation("TLS disabled: malformed identity header gave access to a protected route", sig("malformed_header_access"), witness.clone());
+                    }
+                }
+            }
+        }
+        // under TLS a caller-supplied identity header never changes anything; neither does the other flavour's header
+        if let (Some(b), Some((h, _, _))) = (baseline, p.hdr) {
+            if (p.tls || h == Hdr::OtherFlavour) && b.status.is_some() && b.status != o.status {
+                ok = false;
+                rec.violation("identity header changed the outcome of a request", sig("header_changed_outcome"), witness.clone());
+            }
+        }
+        if ok {
+            rec.distinct(&(p.test, p.srv, p.config, p.start, &route, p.client, p.wire, p.hdr));
+            rec.seen("client_kinds", p.client_kind);
+            if p.start == Start::SelfBound {
+                rec.count("judged_ok_on_self_bound_listener");
+            }
+            if p.rc.allow {
+                rec.count("allowed_ok");
+            } else {
+                match &p.expect {
+                    Expect::Refuse { .. } => {
+                        rec.count("raw_refused_401");
+                        rec.count(&format!("{}_refused_401", p.test));
+                        rec.seen("refusals", format!("{}/{}/401", p.srv.name(), p.client_kind));
+                        rec.seen(&format!("{}_routes_refused", p.test), format!("{} {route}", p.srv.name()));
+                        if filed.is_some() {
+                            rec.count(&format!("{}_no_stream_checked", p.test));
+                        }
+                        if p.tls && p.hdr.is_some() {
+                            rec.count(&format!("{}_tls_header_ignored", p.test));
+                        }
+                    }
+                    Expect::Accept { .. } => {
+                        rec.count(&format!("{}_{}_accepted", p.test, if p.tls { "pinned_peer" } else { "plain_header" }));
+                        rec.seen(&format!("{}_routes_accepted", p.test), format!("{} {route}", p.srv.name()));
+                    }
+                    Expect::Malformed => rec.count(&format!("{}_plain_malformed_refused", p.test)),
+                }
+            }
+            if rec.want_sample() && (p.case % 41 == 3 || (p.config != "pinned" && p.case % 17 == 2)) {
+                rec.sample(json!({"case": p.case, "server": p.srv.name(), "tls": p.tls, "start": p.start.name(), "config": p.config, "route": route, "client": p.client,
+                    "http": p.wire.name(), "header": p.hdr.map(|(_, n, v)| format!("{n}: {v}")), "status": st, "response_version": out.version,
+                    "handler_reached": o.reached, "stream_filed_under": filed}));
+            }
+        }
+        o
+    }
+
+    fn identity_name(srv: Srv, peer: usize) -> String {
+        match srv {
+            Srv::Mpc => ["A", "B", "C"][peer].to_string(),
+            Srv::Shard => peer.to_string(),
+        }
+    }
+
+    // -----------------------------------------------------------------------------------------
+    // (c) HTTP versions and request-target forms, TLS on and off, with and without identity headers
+    // -----------------------------------------------------------------------------------------
+
+    #[test]
+    fn verif_c20_http_versions() {
+        const TEST: &str = "httpver";
+        let mut rec = Recorder::new("C20", "verif_c20_http_versions");
+        let Some(s) = setup(&mut rec) else { return rec.finish() };
+        let routes = route_cases(&s.inv);
+        struct HC {
+            idx: usize,
+            start: Start,
+            tls: bool,
+            ri: usize,
+            wire: Wire,
+            /// 0 = no certificate, 1 = certificate of a configured peer, 2 = certificate the server does not know
+            who: usize,
+        }
+        let mut cases: Vec<HC> = Vec::new();
+        for start in Start::ALL {
+            for tls in [true, false] {
+                for ri in 0..routes.len() {
+                    for wire in Wire::ALL {
+                        for who in 0..(if tls { 3 } else { 1 }) {
+                            cases.push(HC { idx: cases.len(), start, tls, ri, wire, who });
+                        }
+                    }
+                }
+            }
+        }
+        for start in starts() { run(async {
+            let w = World::new(start).await;
+            let mut pool = RawPool::default();
+            let mut refs = BTreeMap::new();
+            let mut io_errors = 0u64;
+            for c in cases.iter().filter(|c| c.start == start) {
+                if !s.env.mine(c.idx) || s.only.is_some_and(|o| o != c.idx) {
+                    continue;
+                }
+                let rc = &routes[c.ri];
+                let srv = rc.tmpl.srv;
+                let Some(r) = route_reference(&w, &mut rec, &mut refs, c.ri, rc).await else { continue };
+                rec.seen("routes", format!("{} {}", srv.name(), rc.tmpl.full));
+                let hdr = id_header(srv);
+                let other = (id_header(if srv == Srv::Mpc { Srv::Shard } else { Srv::Mpc }), if srv == Srv::Mpc { "0" } else { "A" });
+                let certs = if srv == Srv::Mpc { MPC_CERTS } else { SHARD_CERTS };
+                let (who, client, client_kind, cert_id): (Who, String, &'static str, Option<String>) = match c.who {
+                    0 => (Who::Anonymous, "anonymous".into(), "anonymous", None),
+                    1 => {
+                        let ci = c.idx % certs.len();
+                        (Who::Cert(certs[ci].1), certs[ci].0.replace("cert-", "cert:"), "cert:pinned-peer", Some(identity_name(srv, ci)))
+                    }
+                    _ => (Who::Cert(if srv == Srv::Mpc { FOREIGN_FOR_MPC } else { FOREIGN_FOR_SHARD }), "cert:foreign".into(), "cert:foreign", None),
+                };
+                // header variants: none first (the baseline), then peers / malformed / other flavour
+                let peers = spoof_values(srv);
+                let bad = ["H1", "", "-1", "AA"][c.idx % 4];
+                let mut hv: Vec<Option<(Hdr, &'static str, &str)>> = vec![None];
+                for (k, v) in peers.iter().enumerate() {
+                    let rotating = k == c.idx % peers.len() || k == (c.idx / 3 + 1) % peers.len();
+                    if s.env.thorough || (c.who != 2 && rotating) || (c.who == 2 && k == c.idx % peers.len()) {
+                        hv.push(Some((Hdr::Peer, hdr, *v)));
+                    }
+                }
+                if c.who != 2 || s.env.thorough {
+                    hv.push(Some((Hdr::Malformed, hdr, bad)));
+                    hv.push(Some((Hdr::OtherFlavour, other.0, other.1)));
+                }
+                let mut baseline: Option<Outcome> = None;
+                for h in hv {
+                    let expect = if c.tls {
+                        match (&cert_id, c.who) {
+                            (Some(id), _) => Expect::Accept { id: id.clone() },
+                            (None, 0) => Expect::Refuse { tls_failure_ok: false },
+                            _ => Expect::Refuse { tls_failure_ok: true },
+                        }
+                    } else {
+                        match h {
+                            Some((Hdr::Peer, _, v)) => Expect::Accept { id: v.to_string() },
+                            Some((Hdr::Malformed, _, _)) => Expect::Malformed,
+                            _ => Expect::Refuse { tls_failure_ok: false },
+                        }
+                    };
+                    let p = P { test: TEST, case: c.idx, srv, tls: c.tls, port: w.port(srv, c.tls), start, config: "pinned", rc, reference: &r, who, client: &client, client_kind,
+                        wire: c.wire, hdr: h, expect };
+                    let o = probe(&w, &mut pool, &mut rec, &s.env, &mut io_errors, &p, baseline.as_ref()).await;
+                    if h.is_none() {
+                        baseline = Some(o);
+                    }
+                }
+                if io_errors > 20 {
+                    break;
+                }
+            }
+            rec.add("raw_connections_opened", pool.connects);
+            rec.add("raw_connections_reopened", pool.reconnects);
+        }); }
+        rec.finish();
+    }
+
+    // -----------------------------------------------------------------------------------------
+    // (d) network configurations in which peers have no pinned certificate
+    // -----------------------------------------------------------------------------------------
+
+    /// (name of the peer, identity as the transport files it, index of its test certificate)
+    fn peer_table(srv: Srv) -> &'static [(&'static str, &'static str, usize)] {
+        match srv {
+            Srv::Mpc => &[("H1", "A", 0), ("H2", "B", 1), ("H3", "C", 2)],
+            // two shards of helper 1. The repository's certificates for shard indices > 0 have expired (2025-01-05), so the
+            // configuration pins the second unexpired test certificate for shard 1.
+            Srv::Shard => &[("S0", "0", 0), ("S1", "1", 1)],
+        }
+    }
+
+    fn config_name(srv: Srv, mask: u32) -> String {
+        if mask == 0 {
+            return "pinned".into();
+        }
+        let names: Vec<&str> = peer_table(srv).iter().enumerate().filter(|(i, _)| mask >> i & 1 == 1).map(|(_, p)| p.0).collect();
+        format!("unpinned:{}", names.join("+"))
+    }
+
+    #[allow(dead_code)]
+    enum Keep {
+        _H(IpaHttpServer<Helper>),
+        _S(IpaHttpServer<Shard>),
+    }
+
+    /// A further TLS server on the transport (request handler, record streams) of the world's TLS `TestServer`, built from
+    /// the repository's own test configuration in which the peers selected by `mask` have `certificate: None`.
+    /// `Err` = `start_on` panicked (message).
+    async fn start_variant(w: &World, srv: Srv, mask: u32, start: Start) -> Result<(u16, Keep), String> {
+        let rt = IpaRuntime::current();
+        match srv {
+            Srv::Mpc => {
+                let mut tc = TestConfig::builder().build();
+                let ring = tc.rings.remove(0);
+                let mut net = ring.network.clone();
+                assert_eq!(net.peers.len(), peer_table(srv).len());
+                for (i, p) in net.peers.iter_mut().enumerate() {
+                    assert!(p.certificate.is_some());
+                    p.certificate = if mask >> i & 1 == 1 { None } else { Some(cert_der(peer_table(srv)[i].2)) };
+                }
+                let first = ring.servers.into_iter().next().unwrap();
+                let mut cfg = first.config.clone();
+                assert!(!cfg.disable_https);
+                let listener = match start {
+                    Start::PreBound => first.socket,
+                    Start::SelfBound => {
+                        cfg.port = None;
+                        None
+                    }
+                };
+                let server = IpaHttpServer::new_mpc(Arc::clone(&w.mpc_tls.transport), cfg, net);
+                let r = vlib::catch_fut(server.start_on(&rt, listener, ())).await;
+                r.map(|(addr, _join)| (addr.port(), Keep::_H(server)))
+            }
+            Srv::Shard => {
+                let tc = TestConfig::builder().with_shard_count(2).build();
+                let [tn, ..] = tc.shards;
+                let mut net = tn.network.clone();
+                assert_eq!(net.peers.len(), peer_table(srv).len());
+                for (i, p) in net.peers.iter_mut().enumerate() {
+                    assert!(p.certificate.is_some());
+                    p.certificate = if mask >> i & 1 == 1 { None } else { Some(cert_der(peer_table(srv)[i].2)) };
+                }
+                let first = tn.servers.into_iter().next().unwrap();
+                let mut cfg = first.config.clone();
+                assert!(!cfg.disable_https);
+                let listener = match start {
+                    Start::PreBound => first.socket,
+                    Start::SelfBound => {
+                        cfg.port = None;
+                        None
+                    }
+                };
+                let server = IpaHttpServer::new_shards(Arc::clone(&w.shard_tls.transport), cfg, net);
+                let r = vlib::catch_fut(server.start_on(&rt, listener, ())).await;
+                r.map(|(addr, _join)| (addr.port(), Keep::_S(server)))
+            }
+        }
+    }
+
+    #[test]
+    fn verif_c20_unpinned_peers() {
+        const TEST: &str = "unpinned";
+        let mut rec = Recorder::new("C20", "verif_c20_unpinned_peers");
+        let Some(s) = setup(&mut rec) else { return rec.finish() };
+        // protected routes, plus the echo route as a witness that report-collector routes stay reachable
+        let routes: Vec<RouteCase> = route_cases(&s.inv).into_iter().filter(|r| !r.allow || r.tmpl.full == "/echo").collect();
+        struct UC {
+            idx: usize,
+            srv: Srv,
+            mask: u32,
+            start: Start,
+            ri: usize,
+            /// 0 = no certificate, 1..=n = certificate of peer i-1, n+1 = a certificate that is in nobody's configuration
+            client: usize,
+            wire: Wire,
+        }
+        let wires: &[Wire] = if s.env.thorough { &Wire::ALL } else { &[Wire::H1Origin, Wire::H2Https] };
+        let mut cases: Vec<UC> = Vec::new();
+        for srv in [Srv::Mpc, Srv::Shard] {
+            let n = peer_table(srv).len();
+            for mask in 0..(1u32 << n) {
+                for start in Start::ALL {
+                    for (ri, rc) in routes.iter().enumerate() {
+                        if rc.tmpl.srv != srv {
+                            continue;
+                        }
+                        for client in 0..n + 2 {
+                            for wire in wires {
+                                cases.push(UC { idx: cases.len(), srv, mask, start, ri, client, wire: *wire });
+                            }
+                        }
+                    }
+                }
+            }
+        }
+        // one world: the variant servers are started both ways on its TLS transports
+        run(async {
+            let w = World::new(Start::PreBound).await;
+            let mut pool = RawPool::default();
+            let mut refs = BTreeMap::new();
+            let mut io_errors = 0u64;
+            let mut servers: BTreeMap<(Srv, u32, Start), Option<(u16, Keep)>> = BTreeMap::new();
+            let wanted = starts();
+            for c in &cases {
+                if !s.env.mine(c.idx) || s.only.is_some_and(|o| o != c.idx) || !wanted.contains(&c.start) {
+                    continue;
+                }
+                let srv = c.srv;
+                let peers = peer_table(srv);
+                let config = config_name(srv, c.mask);
+                let all_unpinned = c.mask == (1 << peers.len()) - 1;
+                if !servers.contains_key(&(srv, c.mask, c.start)) {
+                    let started = match start_variant(&w, srv, c.mask, c.start).await {
+                        Ok(x) => {
+                            rec.seen("unpinned_configs", format!("{}/{config}/{}", srv.name(), c.start.name()));
+                            Some(x)
+                        }
+                        Err(msg) => {
+                            // A server that refuses to start is a loud rejection of the configuration, not a hole.
+                            rec.seen("unpinned_configs_refused_at_startup", format!("{}/{config}/{}: {}", srv.name(), c.start.name(), msg.chars().take(120).collect::<String>()));
+                            if !all_unpinned {
+                                rec.inconclusive(format!("server with configuration {config} did not start: {msg}"));
+                            }
+                            None
+                        }
+                    };
+                    servers.insert((srv, c.mask, c.start), started);
+                }
+                let Some((port, _)) = &servers[&(srv, c.mask, c.start)] else {
+                    rec.eval();
+                    rec.count("unpinned_cases_on_config_refused_at_startup");
+                    rec.distinct(&(TEST, srv, &config, c.start, "refused-at-startup", c.idx));
+                    continue;
+                };
+                let rc = &routes[c.ri];
+                let Some(r) = route_reference(&w, &mut rec, &mut refs, c.ri, rc).await else { continue };
+                rec.seen("routes", format!("{} {}", srv.name(), rc.tmpl.full));
+                let (who, client, client_kind, expect): (Who, String, &'static str, Expect) = if c.client == 0 {
+                    (Who::Anonymous, "anonymous".into(), "anonymous", Expect::Refuse { tls_failure_ok: false })
+                } else if c.client <= peers.len() {
+                    let (name, id, cert) = peers[c.client - 1];
+                    if c.mask >> (c.client - 1) & 1 == 1 {
+                        // the configuration does not pin this peer: its certificate is just some certificate
+                        (Who::Cert(cert), format!("cert:{name}"), "cert:unpinned-peer", Expect::Refuse { tls_failure_ok: true })
+                    } else {
+                        (Who::Cert(cert), format!("cert:{name}"), "cert:pinned-peer", Expect::Accept { id: id.to_string() })
+                    }
+                } else {
+                    // helper ring: all three unexpired test certificates belong to peers, the foreign one is an expired one; shard
+                    // network: the third unexpired certificate
+                    (Who::Cert(if srv == Srv::Mpc { FOREIGN_FOR_MPC } else { 2 }), "cert:foreign".into(), "cert:foreign", Expect::Refuse { tls_failure_ok: true })
+                };
+                // header variants: none, then the identity header naming an unpinned peer (if any; rotating), thorough: malformed too
+                let unpinned: Vec<&str> = peers.iter().enumerate().filter(|(i, _)| c.mask >> i & 1 == 1).map(|(_, p)| p.1).collect();
+                let claim = if unpinned.is_empty() { peers[c.idx % peers.len()].1 } else { unpinned[c.idx % unpinned.len()] };
+                let hdr = id_header(srv);
+                let mut hv: Vec<Option<(Hdr, &'static str, &str)>> = vec![None, Some((Hdr::Peer, hdr, claim))];
+                if s.env.thorough {
+                    hv.push(Some((Hdr::Malformed, hdr, "H1")));
+                }
+                let mut baseline: Option<Outcome> = None;
+                for h in hv {
+                    let p = P { test: TEST, case: c.idx, srv, tls: true, port: *port, start: c.start, config: &config, rc, reference: &r, who, client: &client, client_kind,
+                        wire: c.wire, hdr: h, expect: expect.clone() };
+                    let o = probe(&w, &mut pool, &mut rec, &s.env, &mut io_errors, &p, baseline.as_ref()).await;
+                    if o.status.is_some() {
+                        rec.seen("unpinned_configs_answered", format!("{}/{config}/{}/{client_kind}", srv.name(), c.start.name()));
+                    }
+                    if h.is_none() {
+                        baseline = Some(o);
+                    }
+                }
+                if io_errors > 20 {
+                    break;
+                }
+            }
+            rec.add("raw_connections_opened", pool.connects);
+            rec.add("raw_connections_reopened", pool.reconnects);
+        });
         rec.finish();
     }
 }
